@@ -46,31 +46,47 @@ artefacts are in `seeded/<id>/` (`patch.diff`, `demo.py`, `notes.md`, `meta.json
 |---|---|---|---|---|
 ''' + "\n".join(rows) + '''
 
-**What the misses taught (checks strengthened afterwards, all seeds above are
-detected by the committed checks):**
+**What the misses taught.** Three waves (20 + 20 + 35 changes). After each wave the checks that
+missed a change were strengthened *in kind* (not by adding the failing input), all
+checks were re-run on the unchanged tree, and every earlier seed was re-checked
+(`tools/seed_recheck.sh`, also with another `VERIF_SEED`). All seeds above are detected by
+the committed quick tier of their own property. The recurring blind spots:
 
-* *State that survives a call* (C02 value-keyed `Value` cache, C11 arity memo keyed
-  by the bare name, C20 per-parser memo): enumerating inputs in one fixed order on a
-  fork pool is not a history exploration. C01/C02/C03/C11/C13 now have a *history
-  layer* that runs the small layer serially in one process, forward and in reverse
-  (C11 additionally grouped by bare name); C20's menu contains the same function
-  valid / wrong arity / other namespace; the typed leaves contain an equal-valued
-  Int/Float pair (`3` and `3.0`).
-* *Schema shapes* (C04 inner join for NOT NULL foreign keys, C15 already-joined test
-  by bare attribute name): the relational schema now has a NOT NULL hop behind
-  nullable hops (`Person.city`) and two relationships with the same attribute name on
-  different models and targets (`Post.owner -> City`, `Blog.owner -> Person`), and
-  C15's base-query menu pre-joins the former.
-* *What reaches the driver* (C08 `literal_execute` for > 64-bit integers): SQLAlchemy
-  statements are compiled with `render_postcompile`, and the adversarial integers lie
-  beyond the signed 64-bit range.
-* *Adversarial names* (C12 `getattr(table.c, name)`): unknown-field probes use names
-  that collide with attributes of SQLAlchemy's column collection / declarative class
-  (`keys`, `values`, `metadata`, `registry`, `__table__` ...). This also exposed a
-  genuine defect of the unchanged ORM visitor (repaired, section 4.1).
-* *Alphabet gaps* (C14 re-bound lambda variable, C19 `tRuE`): leaves with an inner
-  lambda re-binding the outer variable followed by a use of the outer one; every case
-  mask of keywords up to 5 letters and boolean literals in the C19 corpus.
+* *State that survives a call* (value-keyed `Value` cache, arity memo keyed by the bare
+  name, per-parser memo, handler cache keyed by the bare function name, parse cache keyed
+  by the lower-cased text, `id(node)`-keyed memo on a reused visitor, a function table
+  that is written to, a lexer counter that is not reset). Enumerating inputs in one fixed
+  order on a fork pool is not a history exploration. C01/C02/C03/C11/C12/C13/C18 now have
+  a *history layer*: the small layer run serially in ONE process, forward and in reverse
+  (C01 additionally through one shared visitor instance; C11 grouped by bare name with
+  rejected inputs in between; C02/C03 with case-variant string literals adjacent). C10
+  parses the same 3 000 texts in two *fresh processes* in opposite orders and compares the
+  outcome maps, and E-CLOSE compares a reused lexer/parser with fresh ones for every text.
+  C20's menu contains the same function valid / wrong arity / other namespace and inputs
+  where a bad call is reduced before a syntax error. The typed leaves contain an
+  equal-valued Int/Float pair (`3`, `3.0`).
+* *Schema shapes*: a NOT NULL hop behind nullable hops (`Person.city`), two relationships
+  with the same attribute name on different models and targets (`Post.owner -> City`,
+  `Blog.owner -> Person`), a NOT NULL boolean child column (`Comment.flag`) so that lambda
+  bodies can be a bare boolean property; C15's base-query menu pre-joins the same-named
+  relationship and its filters include the nullable-then-NOT-NULL path.
+* *What reaches the driver*: SQLAlchemy statements are compiled with `render_postcompile`;
+  the adversarial integers lie beyond the signed 64-bit range; C08 compares boolean
+  expressions that both carry values (annotation aliases built from literals).
+* *Adversarial names and payloads*: unknown-field probes collide with attributes of
+  SQLAlchemy's column collection / declarative class (this exposed a genuine defect of the
+  unchanged ORM visitor, repaired); C07's alphabet contains every BMP character that a
+  Unicode normalisation form or case mapping turns into a metacharacter, a comma, payloads
+  that look like another literal kind followed by an attack suffix, and list positions with
+  a shared suffix.
+* *Pinned capabilities*: "complete output" is not enough for a namespaced function - no
+  translating backend implements one, so a translation is a mis-mapping (C12).
+* *Alphabet gaps*: re-bound lambda variables and namespaced-identifier/path look-alikes
+  (C14), every case mask of short keywords and boolean literals (C19), GUIDs whose first
+  group looks like another token, geography bodies with doubled quotes (C06/C13), every
+  rarely used node kind in every well-typed argument position (C12), handlers attached
+  after the first visit (C16), AST well-formedness of the returned node (C10), the nesting
+  ORDER of unary-like operators over the same leaves (C09).
 
 '''
 s = s[:a] + text + s[b:]
